@@ -305,6 +305,46 @@ func runC06(p *core.Prog, r *core.Report, tier string) {
 		r.Check(w == nil, "C06.f", core.FnKey(f)+"|lengths-agree", p.Pos(firstIdx.Pos()), "roots are indexed only after len(accounts) == len(roots)", "roots can be indexed by the accounts' index without the lengths having been compared (panic or mis-pairing)", p.WitnessText(w)...)
 	}
 	sort.Strings(r.OutOfScope)
+	// ---- (g) parallel slices stay parallel across calls: when a function of the signer hands a part of one
+	// per-account slice (accounts[a:b]) to a callee that indexes it together with another slice, the other slice is
+	// cut the same way (a batch of accounts signed with the whole — i.e. the first batch's — committee indices
+	// signs every later batch over the wrong data) ----
+	nPar := 0
+	for _, f := range p.FuncsIn("services/signer/standard") {
+		core.EachInstr(f, func(in ssa.Instruction) {
+			c, ok := in.(*ssa.Call)
+			if !ok {
+				return
+			}
+			g := c.Call.StaticCallee()
+			if g == nil || len(g.Blocks) == 0 || g.Pkg != f.Pkg {
+				return
+			}
+			args := c.Call.Args
+			// co-indexed slice parameters of the callee
+			for i := 0; i < len(args) && i < len(g.Params); i++ {
+				for j := i + 1; j < len(args) && j < len(g.Params); j++ {
+					if !isSliceT(args[i].Type()) || !isSliceT(args[j].Type()) {
+						continue
+					}
+					if !coIndexed(g, g.Params[i], g.Params[j]) {
+						continue
+					}
+					nPar++
+					si, isI := args[i].(*ssa.Slice)
+					sj, isJ := args[j].(*ssa.Slice)
+					same := isI == isJ
+					if isI && isJ {
+						same = sameOrBothNil(si.Low, sj.Low) && sameOrBothNil(si.High, sj.High)
+					}
+					r.Check(same, "C06.g", fmt.Sprintf("%s|%s|%s~%s#%d", core.FnKey(f), g.Name(), g.Params[i].Name(), g.Params[j].Name(), nPar), p.Pos(c.Pos()), g.Params[i].Name()+" and "+g.Params[j].Name()+" are handed over cut the same way",
+						"the callee indexes "+g.Params[i].Name()+" and "+g.Params[j].Name()+" with one index, but only one of them is handed over as a sub-slice (or the two are cut differently): from the second batch on every account is signed over another account's data")
+				}
+			}
+		})
+	}
+	r.Floor("C06.g calls with co-indexed slice arguments", nPar, 2)
+
 }
 
 // domainKeyOfLeaf resolves one leaf stored into a domain-type field of New to its spec key, checking that a
@@ -474,4 +514,53 @@ func checkProtectingCall(p *core.Prog, r *core.Report, ds *core.Describer, f *ss
 			r.Check(ok, "C06.c", fmt.Sprintf("%s|protecting-signer.%s|arg-%s", f.Name(), c.Call.Method.Name(), want), p.Pos(c.Pos()), "library parameter "+want+" <- "+root.Name, "the protecting signer's parameter "+want+" receives "+root.Name)
 		}
 	})
+}
+
+func isSliceT(t types.Type) bool { _, ok := t.Underlying().(*types.Slice); return ok }
+
+func sameOrBothNil(a, b ssa.Value) bool {
+	if a == nil || b == nil {
+		return a == nil && b == nil
+	}
+	return a == b || sameExpr(a, b, 0)
+}
+
+// coIndexed: the function indexes both slice parameters with one index value (directly, or hands both to a
+// callee that does).
+func coIndexed(g *ssa.Function, a, b *ssa.Parameter) bool {
+	return coIndexedDepth(g, a, b, 0)
+}
+
+func coIndexedDepth(g *ssa.Function, a, b *ssa.Parameter, depth int) bool {
+	idxA := map[ssa.Value]bool{}
+	found := false
+	core.EachInstr(g, func(in ssa.Instruction) {
+		if ia, ok := in.(*ssa.IndexAddr); ok && ia.X == ssa.Value(a) {
+			idxA[ia.Index] = true
+		}
+	})
+	core.EachInstr(g, func(in ssa.Instruction) {
+		if ia, ok := in.(*ssa.IndexAddr); ok && ia.X == ssa.Value(b) && idxA[ia.Index] {
+			found = true
+		}
+		if c, ok := in.(*ssa.Call); ok && depth < 2 && !found {
+			h := c.Call.StaticCallee()
+			if h == nil || len(h.Blocks) == 0 {
+				return
+			}
+			pa, pb := -1, -1
+			for k, x := range c.Call.Args {
+				if x == ssa.Value(a) {
+					pa = k
+				}
+				if x == ssa.Value(b) {
+					pb = k
+				}
+			}
+			if pa >= 0 && pb >= 0 && pa < len(h.Params) && pb < len(h.Params) && coIndexedDepth(h, h.Params[pa], h.Params[pb], depth+1) {
+				found = true
+			}
+		}
+	})
+	return found
 }
